@@ -123,6 +123,7 @@ def sub_entries(c):
 
 
 def correspondence(ctx):
+    ic.check_fingerprint(ctx)
     basecorr.run(ctx)
     cases = build_cases(ctx)
     reqs, exp, tags = [], [], []
@@ -146,7 +147,6 @@ def correspondence(ctx):
         if e != g:
             ctx.mismatch(q.split()[0], {"request": q, "string": s}, e, g)
     ctx.traces += len(reqs)
-    ctx.count("fingerprint_" + ic.fingerprint())
 
 
 def oracle(ctx):
